@@ -197,6 +197,13 @@ def run_check(prop: Prop, tier: str, seed: int, replay: str | None = None) -> in
         hits = leanio.source_grep(leanio.lean_sources())
         if hits:
             broken.append("forbidden construct: " + hits[0])
+        if tier == "thorough":
+            # independent re-check of every compiled module the property's theorems rest on
+            mods = leanio.pv_closure(prop.lean_targets)
+            ok, log = leanio.leanchecker(mods)
+            rechecked = mods if ok else []
+            if not ok:
+                broken.append("leanchecker: " + log.strip().split("\n")[-1][:300])
     discharged = sum(1 for n in obligations
                      if axioms_seen.get(n) is not None
                      and all(a in leanio.ALLOWED_AXIOMS for a in axioms_seen[n])) if build_ok else 0
